@@ -156,6 +156,9 @@ pub fn lift(cex: &str) -> Vec<String> {
 
 pub const ALPHABET: &[&str] = &[
     "{", "}", ":", "<", "^", ">", "+", "-", "#", "0", "1", "$", ".", "*", "?", "x", "X", "o", "e", "a", "_", " ", "\u{e9}", "\u{2003}",
+    // characters on which Unicode's XID classes and std's alphabetic / alphanumeric classes disagree:
+    // U+24D0 (Alphabetic, not XID_Start), U+00B2 (numeric, not XID_Continue), U+00B7 and U+0301 (XID_Continue, not alphanumeric)
+    "\u{24d0}", "\u{b2}", "\u{b7}", "\u{301}",
 ];
 
 /// every string over ALPHABET of at most `maxlen` symbols: returns (strings checked, accepted by spec, violations)
